@@ -26,6 +26,10 @@ const (
 	ShapeBareHard
 	ShapeWrappedSoft
 	ShapeWrappedHard
+	// ShapeSharedHard: the type returns one and the same *VerifyError value every time it
+	// rejects (a sentinel, as error values often are): what one verification does to that
+	// value must not show in the next
+	ShapeSharedHard
 	NumShapes
 )
 
@@ -58,6 +62,8 @@ type Config struct {
 	BadEpoch map[uint64]bool
 	// VerifyCalls counts type-level Verify invocations (probe).
 	VerifyCalls int
+	// Sentinel is the shared rejection of ShapeSharedHard headers (one per run)
+	Sentinel *header.VerifyError
 	// DecoderPanics: UnmarshalBinary panics on a poisoned first byte instead of returning an error
 	// (C11 quantifies over decoders that panic; nobody else does, and arbitrary stored bytes -
 	// e.g. a height-index value read through a colliding hash key - must not take the process down
@@ -128,6 +134,11 @@ func (h *H) Verify(u *H) error {
 		return fmt.Errorf("wrapped: %w", &header.VerifyError{Reason: ErrType, SoftFailure: true})
 	case ShapeWrappedHard:
 		return fmt.Errorf("wrapped: %w", &header.VerifyError{Reason: ErrType})
+	case ShapeSharedHard:
+		if Cfg.Sentinel == nil {
+			Cfg.Sentinel = &header.VerifyError{Reason: ErrType}
+		}
+		return Cfg.Sentinel
 	}
 	if !u.ValidSig() {
 		return fmt.Errorf("%w: bad signature at %d", ErrType, u.Ht)
